@@ -533,4 +533,54 @@ theorem tstep_height (hty : TypingW p bs a) (hH : HBound a H) {s s' : VMState} {
 
 end height
 
+/-! ## 4. run level -/
+
+section runlevel
+variable {p : Prog} {env : Env}
+
+/-- **one iteration pushes at most the table entry of its case** -/
+theorem step_slen {s s' : VMState} {chk : Bool} {o : Op} {m : Mode} (hop : Op.ofNat? s.oper.op = some o)
+    (hm : modeOf s.oper = some m) (h : step p env s = .next s' chk) :
+    s'.stack.length ≤ s.stack.length + spushMax o m := by
+  have hl := body_slen p env s o m hop hm
+  cases hbody : body p env s with
+  | error f => rw [step_of_body_error _ _ hbody] at h; cases h
+  | ok r =>
+    obtain ⟨s1, e⟩ := r
+    rw [step_of_body_ok _ _ hbody] at h
+    rw [hbody] at hl
+    rw [finish_stack h]
+    exact hl.1
+
+def listMaxH : List (Option STy) → Nat
+  | [] => 0
+  | x :: xs => max ((x.map List.length).getD 0) (listMaxH xs)
+
+theorem listMaxH_ge {S : STy} : ∀ {l : List (Option STy)}, some S ∈ l → S.length ≤ listMaxH l
+  | x :: xs, h => by
+    rcases List.mem_cons.mp h with rfl | h'
+    · simp only [listMaxH, Option.map_some, Option.getD_some]; omega
+    · have := listMaxH_ge h'
+      simp only [listMaxH]; omega
+
+/-- the largest height of an assigned type -/
+def maxH (a : Assign) : Nat := listMaxH a.toList
+
+/-- an assignment is a finite table: its types have a largest height -/
+theorem hbound_maxH (a : Assign) : HBound a (maxH a) := by
+  intro q S h
+  unfold Assign.get at h
+  cases hq : a[q]? with
+  | none => rw [hq] at h; cases h
+  | some x =>
+    rw [hq] at h
+    simp only [Option.getD_some] at h
+    subst h
+    have hm : some S ∈ a.toList := by
+      rw [Array.mem_toList_iff]
+      exact Array.mem_of_getElem? hq
+    exact listMaxH_ge hm
+
+end runlevel
+
 end RegexVerif.Lemmas.StackCapacity
